@@ -318,7 +318,10 @@ func (m *rmodel) lookup(e string) (string, bool) {
 	return m.objPath(e)
 }
 
-// StringSearchInterpolator with PrefixAwareRecursionInterceptor. ok = false: cycle (an error in Maven).
+// StringSearchInterpolator with its recursion interceptor. ok = false: cycle (an error in Maven).
+// (Maven interpolates the property values themselves first, in place, so that the prefix
+// awareness of its interceptor never turns ${version} -> ${project.version} into a cycle;
+// the stack of raw expressions gives the same outcome.)
 func (m *rmodel) interp(s string, stack []string, fuel int) (string, bool) {
 	if fuel == 0 {
 		return s, false
@@ -337,14 +340,13 @@ func (m *rmodel) interp(s string, stack []string, fuel int) (string, bool) {
 		e := s[i+2 : i+2+j]
 		whole := s[i : i+2+j+1]
 		s = s[i+2+j+1:]
-		t := trimPrefix(e)
 		for _, x := range stack {
-			if x == t {
+			if x == e {
 				return "", false
 			}
 		}
 		if v, ok := m.lookup(e); ok {
-			r, ok := m.interp(v, append(append([]string(nil), stack...), t), fuel-1)
+			r, ok := m.interp(v, append(append([]string(nil), stack...), e), fuel-1)
 			if !ok {
 				return "", false
 			}
@@ -448,7 +450,7 @@ func (c *refCtx) effective(p *Pom, importing []Key, fuel int) (*rmodel, bool) {
 		m = refInherit(refInjectProfiles(ch[i], c.env), m)
 	}
 	// interpolation
-	ifuel := len(m.Props) + 9
+	ifuel := len(m.Props) + 24
 	deps, ok1 := m.interpDeps(m.Deps, ifuel)
 	mgmt, ok2 := m.interpDeps(m.Mgmt, ifuel)
 	g, ok3 := m.interp(m.G, nil, ifuel)
